@@ -644,7 +644,9 @@ fn oracle_c05(rep: &mut Report, c: &EmitCase, em: &Emitted) {
 
 fn oracle_c06(rep: &mut Report, c: &EmitCase, em: &Emitted) {
     let case = case_text(c);
-    let n_ops = em.hir.operations.len();
+    // the number of (path, verb) operations of the *document*
+    let n_ops = crate::hirprops::count_operations(&c.doc);
+    if em.hir.operations.len() != n_ops { rep.oracle_fail("operationCount", vec![], &case, &format!("{n_ops} operations in the document, {} in the interface", em.hir.operations.len())); }
     // recorded finding: names synthesised from verb and path that coincide
     let synth_clash = crate::hirprops::documented_synth_clash(&c.doc);
     let rep_fail = |rep: &mut Report, tag: &str, detail: &str| rep.oracle_fail(tag, if synth_clash { vec!["synthNameCollision".to_string()] } else { vec![] }, &case_text(c), detail);
